@@ -244,7 +244,7 @@ def check(case: t.Any, ctx: Ctx) -> None:
             return
         if r.why == 'predicate raised' and nd is ann:
             tree = got.tree
-            if getattr(tree, 'cause', None) is None or 'tok_predicate_boom' not in str(got):
+            if getattr(tree, 'cause', None) is None or ('tok_predicate_boom' not in str(got) and 'raises' in repr(case[0])):
                 ctx.fail('raising-predicate-has-cause', type(tree).__name__, f"{ident}; the predicate raised, but the error carries no cause / message: {str(got)[:200]}")
                 return
     # serialisation ignores conditions - also for a value violating them
@@ -274,7 +274,10 @@ def strip(nd: tg.Node) -> tg.Node:
 STOCK = [('Positive',), ('Negative',), ('NonPositive',), ('NonNegative',), ('Finite',), ('val_range', 0, 1), ('val_range', None, 0), ('user_gt', 0)]
 WRAPS = ['c', 'not', 'notnot', 'c-and-not', 'c-or-not', 'all-not', 'any-not']
 TABLE_VALUES = [0, 1, -1, 2, 0.0, -0.0, 1.0, -1.0, 0.5, math.nextafter(0.0, 1.0), math.nextafter(0.0, -1.0), math.nextafter(1.0, 2.0),
-                float('inf'), float('-inf'), float('nan')]
+                float('inf'), float('-inf'), float('nan'),
+                # complex numbers (a supported scalar type) are finite when both parts are; they are not ordered
+                0j, 1 + 2j, complex(0.0, float('inf')), complex(float('-inf'), 1.0), complex(float('nan'), 0.0), complex(1e308, -1e308)]
+N_REAL = 15
 
 
 def table_cases(shard: int, nshards: int) -> t.Iterator[t.Any]:
@@ -282,7 +285,7 @@ def table_cases(shard: int, nshards: int) -> t.Iterator[t.Any]:
     for ci in range(len(STOCK)):
         for w in WRAPS:
             for vi in range(len(TABLE_VALUES)):
-                for inner in ('int', 'float'):
+                for inner in (('int', 'float') if vi < N_REAL else ('complex',)) + (('complex',) if STOCK[ci] == ('Finite',) and vi < N_REAL else ()):
                     if i % nshards == shard:
                         yield [ci, w, vi, inner]
                     i += 1
@@ -353,10 +356,91 @@ def check_alias(case: t.Any, ctx: Ctx) -> None:
                  f"the alias's documented predicate says {'accept' if want else 'refuse'}")
 
 
+# ---- conditions next to an annotation that is not a condition -------------------------------------------------------------------
+#
+# docs/using/advanced.md: custom annotations subclass ConvertAnnotation and wrap the converter built so far.  Annotated[int, *pre,
+# Plus100(), *post]: the conditions before the annotation restrict what the inner converter yields (the given int), those after
+# it restrict what the annotation yields (the int plus 100) - each predicate is asked once, about the value of its own layer.
+
+_CA: t.Dict[str, t.Any] = {}
+
+
+def _plus100() -> t.Any:
+    if 'ann' not in _CA:
+        import pane.annotations as A
+        import pane.converters as C
+
+        class _Plus100Converter(C.Converter):
+            def __init__(self, inner: t.Any, handlers: t.Any) -> None:
+                self.inner = inner if isinstance(inner, C.Converter) else C.make_converter(inner, handlers)
+
+            def expected(self, plural: bool = False) -> str:
+                return self.inner.expected(plural) + ' (read plus 100)'
+
+            def into_data(self, val: t.Any) -> t.Any:
+                return self.inner.into_data(val - 100)
+
+            def try_convert(self, val: t.Any) -> t.Any:
+                return self.inner.try_convert(val) + 100
+
+            def collect_errors(self, val: t.Any) -> t.Any:
+                return self.inner.collect_errors(val)
+
+        class Plus100(A.ConvertAnnotation):
+            def _converter(self, inner_type: t.Any, *, handlers: t.Any) -> t.Any:
+                return _Plus100Converter(inner_type, handlers)
+
+            def __hash__(self) -> int:
+                return 100
+
+            def __eq__(self, other: t.Any) -> bool:
+                return type(other) is type(self)
+
+        _CA['ann'] = Plus100
+    return _CA['ann']
+
+
+_CA_BOUNDS = [-150, -100, -50, 0, 50, 100, 150]
+ca_cases = st.tuples(st.lists(st.tuples(st.sampled_from(['gt', 'lt']), st.sampled_from(_CA_BOUNDS)), max_size=2),
+                     st.lists(st.tuples(st.sampled_from(['gt', 'lt']), st.sampled_from(_CA_BOUNDS)), max_size=2),
+                     st.one_of(st.sampled_from([-151, -150, -100, -99, -51, -1, 0, 1, 49, 50, 51, 99, 100, 101, 151]), st.integers(-300, 300))).map(list)
+
+
+def check_custom_annotation(case: t.Any, ctx: Ctx) -> None:
+    import pane
+    from pane.annotations import Condition
+    (pre, post, v) = case
+
+    def cond(kind: str, k: int) -> t.Any:
+        key = (kind, k)
+        if key not in _CA:
+            _CA[key] = Condition((lambda x: x > k) if kind == 'gt' else (lambda x: x < k), f"{'above' if kind == 'gt' else 'below'} {k}")
+        return _CA[key]
+
+    def holds(kind: str, k: int, x: int) -> bool:
+        return x > k if kind == 'gt' else x < k
+    T = t.Annotated[(int, *[cond(*c) for c in pre], _plus100()(), *[cond(*c) for c in post])]      # type: ignore
+    want_ok = all(holds(kd, k, v) for (kd, k) in pre) and all(holds(kd, k, v + 100) for (kd, k) in post)
+    ctx.label(f"pre:{len(pre)},post:{len(post)}", 'accept' if want_ok else 'reject')
+    ctx.nontrivial(bool(pre))
+    ctx.evaluated()
+    (k, r) = outcome(lambda: pane.from_data(v, T))
+    ident = f"Annotated[int, {', '.join(f'{kd} {b}' for (kd, b) in pre)}{', ' if pre else ''}Plus100(){', ' if post else ''}{', '.join(f'{kd} {b}' for (kd, b) in post)}] given {v}"
+    if want_ok and (k != 'ok' or r != v + 100 or type(r) is not int):
+        ctx.fail('predicate-exact', 'around-custom-annotation:refused', f"{ident}: every condition holds for the value of its layer ({v} inside, {v + 100} outside) "
+                 f"but the result is {short(r, 100) if k == 'ok' else type(r).__name__ + ': ' + str(r)[:200]}")
+    elif not want_ok and k == 'ok':
+        ctx.fail('predicate-exact', 'around-custom-annotation:accepted', f"{ident}: a condition fails for the value of its layer ({v} inside, {v + 100} outside) but {r!r} was returned")
+    elif not want_ok and k != 'ce':
+        ctx.fail('predicate-exact', f"around-custom-annotation:{type(r).__name__}", f"{ident}: expected ConvertError, got {type(r).__name__}: {str(r)[:200]}")
+
+
 def suites(tier: str) -> t.List[Suite]:
     big = tier == 'thorough'
     return [
         Suite('conditions', check, strategy=cases, examples=10000 if big else 800, budget_s=480 if big else 40, render=render),
+        Suite('custom-annotation', check_custom_annotation, strategy=lambda: ca_cases, examples=3000 if big else 300, budget_s=60 if big else 10,
+              render=lambda c: {'conditions before Plus100()': c[0], 'conditions after': c[1], 'value': c[2]}),
         Suite('shipped-aliases', check_alias, cases=alias_cases, exhaustive=True, budget_s=60),
         Suite('stock-table', check_table, cases=table_cases, exhaustive=True, budget_s=120, render=lambda c: {'condition': STOCK[c[0]], 'wrapped': c[1], 'value': repr(TABLE_VALUES[c[2]]), 'inner': c[3]}),
     ]
